@@ -9,13 +9,13 @@
 (* ensureNativeDirection (non-native direction).                                                   *)
 (* hist records the primitive operations; it is hidden from the state by the VIEW.                 *)
 EXTENDS HBBuffer, TLC, Json
-CONSTANTS N, Dir, MaxPasses, MaxFlags, Ops   \* Ops: the substitution kinds a pass may use, subset of {"lig", "mult", "del"}
+CONSTANTS N, Dir, MaxPasses, MaxFlags, Ops   \* Ops: the substitution kinds a pass may use, subset of {"lig", "mult", "del", "raw"}
 VARIABLES st, deps, passes, nflags, nmult, gid, hist
 
 vars == <<st, deps, passes, nflags, nmult, gid, hist>>
 View == <<st, deps, passes, nflags, nmult>>
 
-Init0 == [i \in 1..N |-> [g |-> i, cl |-> IF Dir = "inc" THEN i - 1 ELSE N - i, fl |-> FALSE]]
+Init0 == [i \in 1..N |-> [g |-> i, cl |-> IF Dir = "dec" THEN N - i ELSE i - 1, fl |-> FALSE]]   \* Dir = "raw": logical order, reversals allowed
 Init == /\ st = [info |-> Init0, out |-> << >>, idx |-> 0, have |-> FALSE]
         /\ deps = {} /\ passes = 0 /\ nflags = 0 /\ nmult = 0 /\ gid = 100 /\ hist = << >>
 
@@ -53,6 +53,16 @@ FlagCtx(nb, nl) == /\ st.have /\ nflags < MaxFlags /\ nb <= Len(st.out) /\ Left 
 FlagIn(a, b) == /\ ~st.have /\ passes < MaxPasses /\ nflags < MaxFlags /\ b <= Len(st.info)
                 /\ st' = UnsafeToBreak(st, a, b) /\ deps' = deps \cup {DepOf(st, "flag", a, b)}
                 /\ Log("flag", a, b) /\ nflags' = nflags + 1 /\ UNCHANGED <<passes, nmult, gid>>
+(* raw primitives used by other parts of the engine (AAT ligatures rewind with moveTo and merge in the   *)
+(* out-buffer; ensureNativeDirection and the end of shaping reverse the buffer)                         *)
+RawMoveTo(i) == /\ "raw" \in Ops /\ st.have /\ nflags < MaxFlags /\ i <= Len(st.out) + Left /\ i # Len(st.out)
+                /\ st' = MoveTo(st, i) /\ Log("moveTo", i, 0) /\ nflags' = nflags + 1 /\ UNCHANGED <<deps, passes, nmult, gid>>
+RawMergeOut(a, b) == /\ "raw" \in Ops /\ st.have /\ nflags < MaxFlags /\ b <= Len(st.out)
+                     /\ st' = MergeOutClusters(st, a, b) /\ Log("mergeOut", a, b) /\ nflags' = nflags + 1 /\ UNCHANGED <<deps, passes, nmult, gid>>
+RawReverse == /\ "raw" \in Ops /\ ~st.have /\ passes < MaxPasses /\ nflags < MaxFlags
+              /\ \/ st' = Reverse(st) /\ Log("reverse", 0, 0)
+                 \/ st' = ReverseClusters(st) /\ Log("reverseClusters", 0, 0)
+              /\ nflags' = nflags + 1 /\ UNCHANGED <<deps, passes, nmult, gid>>
 End == /\ st.have /\ Left = 0
        /\ st' = SwapBuffers(st) /\ Log("swap", 0, 0) /\ UNCHANGED <<deps, passes, nflags, nmult, gid>>
 
@@ -60,9 +70,12 @@ Next == \/ Begin \/ Copy \/ Multiply \/ Delete \/ End
         \/ \E n \in 2..3 : Ligate(n)
         \/ \E nb \in 0..2 : \E nl \in 1..3 : FlagCtx(nb, nl)
         \/ \E a \in 0..(N - 1) : \E b \in (a + 2)..(a + 3) : FlagIn(a, b)
+        \/ RawReverse \/ \E i \in 0..(N + 2) : RawMoveTo(i)
+        \/ \E a \in 0..N : \E b \in (a + 2)..(a + 3) : RawMergeOut(a, b)
 Spec == Init /\ [][Next]_vars
 
 InvMonotone == Monotone(st, Dir)
+InvMonotoneAny == MonotoneAny(st)
 InvFlagsCover == FlagsCover(st, deps)
 (* flow G: a finished behaviour (all passes done) is printed for the replay *)
 Done == ~st.have /\ passes = MaxPasses
